@@ -26,8 +26,9 @@ m = {
     "not_applicable": [],
     "notes": "See DESIGN.md. Every check is a bounded exhaustive exploration of the real code; evidence/<id>.json is rewritten by each run.",
 }
+claimed = set(json.load(open(os.path.join(V, "claimed.json"))))
 for pid in props:
-    if pid in checks and not checks[pid].get("disabled"):
+    if pid in checks and pid in claimed:
         c = checks[pid]
         e = {
             "property_id": pid,
